@@ -1042,6 +1042,8 @@ class ReadPhaseSpace(Contract):
                      ('data_read', {'C11'}, z3.BoolVal('ghost.h5.read_done' in sc))]
         return extra + [('single_bunch', {'C17', 'C10', 'C11'}, nb == 1),
                 ('charge_and_current_of_this_run', {'C10'}, And(cx.rf(r.name + '.charge') == cx.a('Qb'), cx.rf(r.name + '.current') == cx.a('Ib_unscaled'))),
+                # unit factors of the loaded grid are those of THIS run as well (not whatever the old file was written with)
+                ('unit_factors_of_this_run', {'C10'}, And(cx.rf(r.name + '._axis[0]._scale[Meter]') == cx.a('bl'), cx.rf(r.name + '._axis[1]._scale[ElectronVolt]') == cx.a('dE'))),
                 ('shape', {'C17'}, declare_ps(cx, r.name))]
 
 
@@ -1101,4 +1103,134 @@ class MakePSFromHDF5(Contract):
                                f'startdiststep is declared {stepp["type"].get("qualType")} and handed on {"with conversions to " + str(lossy) if lossy else "unconverted"}: negative values (records counted from the end) must survive'))
         ex.obls = obls + [Obligation('makePSFromHDF5#canary', set(), [], z3.BoolVal(False), 'canary', None, '')]
         info = {'unit': self.name, 'file': self.tu, 'sha': tu.sha, 'cases': 1, 'lines': [None, None], 'extract_s': 0, 'facts': {'forwarded': [str(g) for g in got]}}
+        return [ex], info
+
+
+class HDF5FileUnits(Contract):
+    """Unit-conversion attributes of the results file (C10): every attribute the constructor attaches to a dataset is written from
+    the quantity its name promises, read back from the very objects the simulation runs with (phase space axes' unit-scale tables,
+    bunch charge/current, synchrotron period and revolution frequency handed in by main, the field's Volt / Watt factors).
+    Facts from the real AST: (dataset member, attribute name) -> canonical text of the written expression, locals resolved."""
+    name = 'vfps::HDF5File::HDF5File'
+    tu = 'src/IO/HDF5File.cpp'
+    tags = {'C10'}
+    METER, EV = 'ps.getScale(0,"Meter")', 'ps.getScale(1,"ElectronVolt")'
+    EXPECT = {
+        ('_positionAxis', 'Meter'): METER, ('_positionAxis', 'Second'): f'({METER}/c)',
+        ('_energyAxis', 'ElectronVolt'): EV,
+        ('_frequencyAxis', 'Hertz'): '((ef!=nullptr)?ef.getFreqRuler():imp.getRuler()).scale("Hertz")',
+        ('_timeAxis', 'Second'): 't_sync', ('_timeAxis', 'Turn'): '(t_sync*f_rev)',
+        ('_timeAxisPS', 'Second'): 't_sync', ('_timeAxisPS', 'Turn'): '(t_sync*f_rev)',
+        ('_bunchPopulation', 'Ampere'): 'ps.current', ('_bunchPopulation', 'Coulomb'): 'ps.charge',
+        ('_bunchProfile', 'AmperePerNBL'): 'ps.current', ('_bunchProfile', 'CoulombPerNBL'): 'ps.charge',
+        ('_energyProfile', 'AmperePerNES'): 'ps.current', ('_energyProfile', 'CoulombPerNES'): 'ps.charge',
+        ('_phaseSpace', 'AmperePerNBLPerNES'): 'ps.current', ('_phaseSpace', 'CoulombPerNBLPerNES'): 'ps.charge',
+        ('_bunchLength', 'Meter'): METER, ('_bunchLength', 'Second'): f'({METER}/c)',
+        ('_bunchPosition', 'Meter'): METER, ('_bunchPosition', 'Second'): f'({METER}/c)',
+        ('_energySpread', 'ElectronVolt'): EV, ('_energyAverage', 'ElectronVolt'): EV,
+        ('_wakePotential', 'Volt'): 'ef.volts', ('_csrSpectrum', 'WattPerHertz'): 'ef.factor4WattPerHertz', ('_csrIntensity', 'Watt'): 'ef.factor4Watts',
+        ('/Impedance/data', 'Ohm'): 'imp.factor4Ohms',
+    }
+
+    def custom_verify(self, scratch, tc):
+        from vf.ast import ctor_inits
+        tu = tc.get(self.tu)
+        ctors = [f for f in tu.funcs.get('vfps::HDF5File::HDF5File', []) if len(params(f)) >= 6]
+        if len(ctors) != 1:
+            raise ExtractionError(f'HDF5File constructor: {len(ctors)} candidates')
+        ctor = ctors[0]
+        ex = Exec(tu, ctor, 'HDF5File::HDF5File')
+        ex.default_tags = {'C10'}
+        b = body(ctor)
+        locals_ = {}
+        assigned = set()
+        for n in _walk(b):
+            if n.get('kind') == 'VarDecl' and n.get('id') and n.get('inner'):
+                locals_[n['id']] = n
+            if n.get('kind') in ('BinaryOperator', 'CompoundAssignOperator') and (n.get('opcode') or '').endswith('=') and n.get('opcode') not in ('==', '!=', '<=', '>='):
+                for y in _walk(n['inner'][0]):
+                    if y.get('kind') == 'DeclRefExpr':
+                        assigned.add((y.get('referencedDecl') or {}).get('id'))
+
+        def canon(e, depth=0):
+            if depth > 40:
+                raise ExtractionError('HDF5File constructor: expression too deep')
+            k = e.get('kind')
+            inner = [c for c in e.get('inner', []) if isinstance(c, dict)]
+            if k in ('ImplicitCastExpr', 'ParenExpr', 'MaterializeTemporaryExpr', 'ExprWithCleanups', 'CXXBindTemporaryExpr', 'CXXFunctionalCastExpr', 'CStyleCastExpr', 'CXXStaticCastExpr') and len(inner) >= 1:
+                return canon(inner[-1], depth + 1)
+            if k in ('CXXConstructExpr', 'CXXTemporaryObjectExpr'):
+                real_args = [a for a in inner if a.get('kind') != 'CXXDefaultArgExpr']
+                if len(real_args) == 1:
+                    return canon(real_args[0], depth + 1)
+            if k == 'DeclRefExpr':
+                rd = e.get('referencedDecl') or {}
+                if rd.get('kind') == 'VarDecl' and rd.get('id') in locals_:
+                    if rd['id'] in assigned:
+                        raise ExtractionError(f'HDF5File constructor: local {rd.get("name")} is re-assigned, cannot be resolved')
+                    return canon(locals_[rd['id']]['inner'][-1], depth + 1)
+                return rd.get('name', '?')
+            if k == 'MemberExpr':
+                if inner and inner[0].get('kind') != 'CXXThisExpr':
+                    return canon(inner[0], depth + 1) + '.' + e.get('name', '?')
+                return e.get('name', '?')
+            if k in ('CXXMemberCallExpr', 'CallExpr'):
+                return canon(inner[0], depth + 1) + '(' + ','.join(canon(a, depth + 1) for a in inner[1:] if a.get('kind') != 'CXXDefaultArgExpr') + ')'
+            if k == 'CXXOperatorCallExpr':
+                opn = [(y.get('referencedDecl') or {}).get('name') for y in _walk(inner[0]) if y.get('kind') == 'DeclRefExpr']
+                if opn and opn[0] in ('operator->', 'operator*') and len(inner) == 2:
+                    return canon(inner[1], depth + 1)
+                if opn and len(inner) == 3 and opn[0].startswith('operator'):
+                    return '(' + canon(inner[1], depth + 1) + opn[0][8:] + canon(inner[2], depth + 1) + ')'
+                raise ExtractionError(f'HDF5File constructor: operator call {opn} not understood')
+            if k == 'UnaryOperator':
+                if e.get('opcode') in ('&', '*'):
+                    return canon(inner[0], depth + 1)
+                return e.get('opcode', '?') + canon(inner[0], depth + 1)
+            if k == 'BinaryOperator':
+                return '(' + canon(inner[0], depth + 1) + e.get('opcode', '?') + canon(inner[1], depth + 1) + ')'
+            if k == 'ConditionalOperator':
+                return '(' + canon(inner[0], depth + 1) + '?' + canon(inner[1], depth + 1) + ':' + canon(inner[2], depth + 1) + ')'
+            if k == 'StringLiteral':
+                return e.get('value', '')
+            if k in ('IntegerLiteral', 'FloatingLiteral'):
+                return str(e.get('value'))
+            if k == 'CXXNullPtrLiteralExpr':
+                return 'nullptr'
+            if k == 'CXXThisExpr':
+                return 'this'
+            raise ExtractionError(f'HDF5File constructor: expression kind {k} in an attribute source not understood')
+
+        found = {}
+        for n in _walk(b):
+            # <dataset>.createAttribute("Name", type, space).write(type, &source)
+            if n.get('kind') != 'CXXMemberCallExpr':
+                continue
+            callee = n['inner'][0]
+            if callee.get('kind') != 'MemberExpr' or callee.get('name') != 'write' or len(n['inner']) < 3:
+                continue
+            creates = [x for x in _walk(callee) if x.get('kind') == 'CXXMemberCallExpr' and x['inner'][0].get('kind') == 'MemberExpr' and x['inner'][0].get('name') == 'createAttribute']
+            if not creates:
+                continue
+            cr = creates[0]
+            attr = strlit(cr['inner'][1])
+            holder = [x.get('name') for x in _walk(cr['inner'][0]) if x.get('kind') == 'MemberExpr' and x.get('name', '').startswith('_') and x.get('name') not in ('_file',)]
+            if not holder:
+                grp = [strlit(x) for x in _walk(cr['inner'][0]) if x.get('kind') == 'StringLiteral']
+                holder = [g for g in grp if g]
+            if not holder or attr is None:
+                raise ExtractionError(f'HDF5File constructor: attribute write at line {line_of(n)} not understood')
+            key = (holder[0], attr)
+            if key in found:
+                raise ExtractionError(f'HDF5File constructor: attribute {key} written twice')
+            found[key] = (canon(n['inner'][2]), line_of(n))
+        obls = []
+        for key, want in sorted(self.EXPECT.items()):
+            got = found.get(key)
+            obls.append(Obligation(f'HDF5File#unit.{key[0].lstrip("_/").replace("/", "_")}.{key[1]}', {'C10'}, [], z3.BoolVal(got is not None and got[0].replace(' ', '') == want), 'postcondition', got[1] if got else None,
+                                   f'attribute {key[1]} of {key[0]} is written from {got[0] if got else "<not written>"}; the quantity of that name is {want}'))
+        extra = sorted(set(found) - set(self.EXPECT))
+        obls.append(Obligation('HDF5File#unit.no_unlisted_attribute', {'C10'}, [], z3.BoolVal(not extra), 'postcondition', None, f'attributes written by the constructor that the contract does not know: {extra}'))
+        ex.obls = obls + [Obligation('HDF5File#unit.canary', set(), [], z3.BoolVal(False), 'canary', None, '')]
+        info = {'unit': self.name + ' (unit attributes)', 'file': self.tu, 'sha': tu.sha, 'cases': 1, 'lines': [line_of(ctor), line_of(ctor)], 'extract_s': 0, 'attributes': len(found)}
         return [ex], info
